@@ -15,3 +15,4 @@ done
 tools/update_fingerprints.py
 python3 tools/gen_audit.py >/dev/null
 python3 tools/gen_manifest.py
+python3 tools/fix_hashes.py
